@@ -741,6 +741,7 @@ class FnSpec:
         self.head = ""
         self.loops = {}
         self.loopbodies = {}
+        self.afterloops = {}
         self.ticks = None
         self.boolor = []
         self.after = []
@@ -801,6 +802,8 @@ def parse_fn_directive(lines, defaults):
             fs.decreases = txt
         elif cur == "head":
             fs.head += txt + "\n"
+        elif cur.startswith("afterloop"):
+            fs.afterloops[int(cur.split()[1])] = txt
         elif cur.startswith("loopbody"):
             fs.loopbodies[int(cur.split()[1])] = txt
         elif cur.startswith("loop"):
@@ -821,7 +824,7 @@ def parse_fn_directive(lines, defaults):
 
     for ln in lines[1:]:
         s = ln.strip()
-        m = re.match(r'(requires|ensures|decreases|head|props|ticks|boolor|loopbody\s+\d+|loop\s+\d+|before\s+"[^"]*"(?:\s+\d+)?|after\s+"[^"]*"(?:\s+\d+)?)(?=\s|$)\s*(.*)$', s)
+        m = re.match(r'(requires|ensures|decreases|head|props|ticks|boolor|afterloop\s+\d+|loopbody\s+\d+|loop\s+\d+|before\s+"[^"]*"(?:\s+\d+)?|after\s+"[^"]*"(?:\s+\d+)?)(?=\s|$)\s*(.*)$', s)
         if m and (cur is None or not ln.startswith("    ")):
             flush()
             cur = m.group(1)
@@ -1005,6 +1008,19 @@ def render_fn(idx, fs, table, ctx):
                 inserts.setdefault(lp[k] + 1, []).append("\n" + txt[4:] + "\n")      # ghost declarations visible in the whole loop body
             else:
                 inserts.setdefault(lp[k] + 1, []).append("\nproof { " + txt + " }\n")
+            rules.fired.add("R9-anchored-hint")
+    if fs.afterloops:
+        # hint placed right after the closing brace of loop #k (the only place where the state a loop leaves behind can be named when
+        # nothing follows the loop in its block)
+        lp = find_loops(body)
+        for k, txt in fs.afterloops.items():
+            if k >= len(lp):
+                raise ExtractError("%s::%s has no loop #%d" % (fs.anchor, fs.name, k))
+            close = match_close(body, lp[k])
+            if txt.startswith("raw "):
+                inserts.setdefault(close + 1, []).append("\n" + txt[4:] + "\n")
+            else:
+                inserts.setdefault(close + 1, []).append("\nproof { " + txt + " }\n")
             rules.fired.add("R9-anchored-hint")
     for (prefix, occ, txt) in fs.after:
         want = [t.s for t in lex(prefix)]
